@@ -5,6 +5,7 @@
 -/
 import Rtp.Proofs.VP9
 import Rtp.Proofs.VP9Pay
+import Rtp.Proofs.VP9Bits
 namespace Rtp.Props.C12
 open Rtp Rtp.Model Rtp.Pred
 open Rtp.Spec.Vp9Rtp (Descriptor)
@@ -103,5 +104,32 @@ example :
     (vp9PayloadHist { flexible := true, init := 0x7FFF } [(5, some [1, 2, 3]), (5, some [4])]) =
       [[[0x98, 0xFF, 0xFF, 1, 2], [0x94, 0xFF, 0xFF, 3]], [[0x9C, 0x80, 0x00, 4]]] := by
   decide +kernel
+
+/-! ### the bit reader of codecs/vp9/bits.go -/
+
+open Rtp.Spec.Vp9Bits (bitsOf natOfBits) in
+/-- `c12_bits`: for every buffer, bit offset and width 1 … 64 that stays inside the buffer,
+    readBitsUnsafe returns the number written by the `n` bits at offset `pos`, most significant bit
+    first (`bitsOf` = the buffer as a bit string, each byte most significant bit first), and
+    advances the position by `n`; in particular it does not panic. -/
+theorem c12_bits (buf : Bytes) (pos n : Nat) (hn : 0 < n) (h64 : n ≤ 64) (h : pos + n ≤ 8 * buf.length) :
+    vp9ReadBitsUnsafe buf pos n = .ok (natOfBits (((bitsOf buf).drop pos).take n), pos + n) :=
+  Proofs.VP9Bits.readBitsUnsafe_eq buf pos n hn h64 h
+
+open Rtp.Spec.Vp9Bits (bitsOf natOfBits) in
+/-- readFlagUnsafe returns bit `pos` -/
+theorem c12_flag (buf : Bytes) (pos : Nat) (h : pos < 8 * buf.length) :
+    vp9ReadFlagUnsafe buf pos = .ok (natOfBits (((bitsOf buf).drop pos).take 1) == 1, pos + 1) :=
+  Proofs.VP9Bits.readFlagUnsafe_eq buf pos h
+
+/-- non-vacuity: 13 bits at offset 5 of `A5 3C F0`: 10100|101 00111100 11|110000 -/
+example : vp9ReadBitsUnsafe [0xA5, 0x3C, 0xF0] 5 13 = .ok (0b1010011110011, 18) := by decide +kernel
+
+/-- what is NOT proved: the full `c12_header` (parse (encode hd) = hd for every profile, colour
+    configuration and size 1 … 65535); it is checked by correspondence kind `c12.hdr` against the
+    independent bit writer, and its consequence for the payloader is the hypothesis of `c12_rt_partial`. -/
+def c12_header_full : Prop :=
+  ∀ (h : Spec.Vp9Bits.Hdr) (wire : Bytes), h.WF = true → C12.startsWith h wire = true →
+    C12.hdr (some h) wire (C12.obsHdr wire) = true
 
 end Rtp.Props.C12
